@@ -33,11 +33,12 @@ pub fn cfg() -> FsxCfg {
             close_volume: 1,
             open_volume: 1,
             open_root: 2,
+            label: 3,
             invalid_names: 0,
             weird_seeks: false,
             ..Profile::mixed()
         },
-        bias: VolBias { max_depth: 2, ..VolBias::default() },
+        bias: VolBias { max_depth: 2, tight: true, ..VolBias::default() },
         multi: false,
         steps: (3, 14),
         ..base
